@@ -251,6 +251,19 @@ def _store_e2e(chunks, region, T):
                 raise Violation("return_stored chunks differ")
         if not np.array_equal(tgt, ref):
             raise Violation(f"store variant {variant} wrote a different array: chunks={chunks} region={region} target shape={T}")
+    # several sources in one call, into distinct targets that hold equal data beforehand
+    t1, t2, t3 = np.full(T, -1), np.full(T, -1), np.full(T, -1)
+    src2 = da.from_array(x + 1000, chunks=chunks)
+    regs = None if region is None else [region, region, region]
+    da.store([src, src, src2], [t1, t2, t3], regions=regs, lock=False, scheduler="sync")
+    ref3 = ref.copy()
+    if region is None:
+        ref3[...] = x + 1000
+    else:
+        ref3[region] = x + 1000
+    for nm, got, want in (("first", t1, ref), ("second", t2, ref), ("third", t3, ref3)):
+        if not np.array_equal(got, want):
+            raise Violation(f"store of three sources into three equal-content targets: the {nm} target was not written correctly (chunks={chunks} region={region})")
 
 
 def obligations(tier):
